@@ -14,7 +14,7 @@ import "math"
 //	Sinh(±Inf) = ±Inf
 //	Sinh(NaN) = NaN
 func Sinh(d Number) Number {
-	if d.Real == 0 {
+	if d.Real == 0 && d.E1E2mag == 0 {
 		return Number{
 			Real:    d.Real,
 			E1mag:   d.E1mag,
@@ -76,11 +76,13 @@ func Cosh(d Number) Number {
 func Tanh(d Number) Number {
 	switch d.Real {
 	case 0:
-		return Number{
-			Real:    d.Real,
-			E1mag:   d.E1mag,
-			E2mag:   d.E2mag,
-			E1E2mag: -d.Real,
+		if d.E1E2mag == 0 {
+			return Number{
+				Real:    d.Real,
+				E1mag:   d.E1mag,
+				E2mag:   d.E2mag,
+				E1E2mag: -d.Real,
+			}
 		}
 	case math.Inf(1):
 		return Number{
@@ -115,7 +117,7 @@ func Tanh(d Number) Number {
 //	Asinh(±Inf) = ±Inf
 //	Asinh(NaN) = NaN
 func Asinh(d Number) Number {
-	if d.Real == 0 {
+	if d.Real == 0 && d.E1E2mag == 0 {
 		return Number{
 			Real:    d.Real,
 			E1mag:   d.E1mag,
@@ -180,7 +182,7 @@ func Acosh(d Number) Number {
 //	Atanh(x) = NaN if x < -1 or x > 1
 //	Atanh(NaN) = NaN
 func Atanh(d Number) Number {
-	if d.Real == 0 {
+	if d.Real == 0 && d.E1E2mag == 0 {
 		return Number{
 			Real:    d.Real,
 			E1mag:   d.E1mag,
